@@ -2,9 +2,18 @@
 use crate::Prop;
 
 pub mod c08;
+pub mod meta;
+pub mod modelprog;
 
 pub fn make(id: &str) -> Option<Box<dyn Prop>> {
     match id {
+        "C01" => Some(Box::new(modelprog::ModelProg { id: "C01" })),
+        "C09" => Some(Box::new(modelprog::ModelProg { id: "C09" })),
+        "C10" => Some(Box::new(modelprog::ModelProg { id: "C10" })),
+        "C04" | "C12" | "C13" | "C16" | "C20" => {
+            let sid: &'static str = match id { "C04" => "C04", "C12" => "C12", "C13" => "C13", "C16" => "C16", _ => "C20" };
+            Some(Box::new(meta::Meta { id: sid }))
+        }
         "C08" => Some(Box::new(c08::C08::new())),
         _ => None,
     }
